@@ -16,20 +16,20 @@ F = "fault_enumeration"
 CHECKS = {
  "C01": (X, "stateful property-based testing: generated muxer call histories (proptest vec of ops + interpreter, exhaustive for <=3/4 ops) against a per-track model; read back through the demuxer",
          "Every generated history is muxed, reopened and every sample compared with the model of accepted samples; rejected calls are checked to return Err and to leave the output byte-identical. Small histories are enumerated exhaustively over a 48-letter op alphabet, long ones sampled. Bounded search.",
-         "trusts Mp4Reader for read-back (checked independently by C03), proptest; histories <= 400 ops", "DESIGN.md 4/C01"),
+         "trusts Mp4Reader for read-back (checked independently by C03), proptest; histories <= 400 ops; sinks: plain, short writes, non-zero start, stale bytes behind the start", "DESIGN.md 4/C01"),
  "C02": (X, "stateful property-based testing of the muxer; output decoded by an independent ISO-BMFF parser (box tiling + sample-table cross-checks against the model)",
-         "Every generated history is muxed and the bytes are judged by a parser that shares no code with the library: exact tiling, table totals vs the model, chunk placement, duration relations in exact integer arithmetic. Bounded search over histories.",
+         "Every generated history is muxed and the bytes are judged by a parser that shares no code with the library: exact tiling, table totals vs the model, chunk placement, duration relations in exact integer arithmetic; plus 240 outputs whose chunk offsets straddle 2^32 (also chunks flushed only by write_end). Bounded search over histories.",
          "trusts the harness' reference parser; totals come from the model of accepted calls", "DESIGN.md 4/C02"),
  "C03": (X, "property-based testing: small-scope exhaustive enumeration of chunk maps + proptest random tables, ground-truth oracle from an independent encoder",
-         "Every sample of every generated file is looked up through sample_count/sample_offset/read_sample and compared with the ground truth kept by the reference encoder that produced the file; chunk-map structure is enumerated exhaustively for small N, other dimensions and large N are sampled. Bounded search: absence beyond the explored scope is not shown.",
+         "Every sample of every generated file is looked up through sample_count/sample_offset/read_sample and compared with the ground truth kept by the reference encoder that produced the file; chunk-map structure is enumerated exhaustively for small N, other dimensions (incl. edit lists and an mvex box in files without fragments) and large N are sampled. Bounded search: absence beyond the explored scope is not shown.",
          "trusts the harness' reference encoder (no library code) and proptest; sizes <= 300 B/sample", "DESIGN.md 4/C03"),
  "C04": (X, "property-based testing over the box value space: per-kind proptest strategies (46 kinds, shapes x values inside wire width), round-trip / size-exactness oracle in three stream contexts, re-encode fixpoint on mutated and reference encodings",
          "For every generated value of every box kind the encoder's return value, box_size(), header and byte count must agree and decoding must restore an equal value and leave the stream exactly at the box end even with siblings or garbage behind; for bytes the decoder accepts (mutated encodings, reference encodings with 64-bit headers / spare bytes) re-encoding must be a fixpoint.",
          "representable domain per DESIGN Appendix A; dinf values only via decoding (private field)", "DESIGN.md 4/C04"),
- "C05": (X, "differential property-based testing against an independent reference codec (refmp4): byte diff of encoder output, field diff of decoder output on reference bytes in compact / 64-bit-header / spare-byte / padded-descriptor layouts, exhaustive AudioSpecificConfig product",
-         "The library's bytes must equal the reference encoder's for the same fields (reserved bits masked, ilst order ignored) and the library must decode every reference layout to the same fields; the AudioSpecificConfig product (93 object types x 16 frequency indices x 16 channel configurations) is enumerated. One open known finding (explicit-frequency channel configuration) is tolerated by signature.",
+ "C05": (X, "differential property-based testing against an independent reference codec (refmp4): byte diff of encoder output, field diff of decoder output on reference bytes in compact / 64-bit-header / spare-byte / padded-descriptor layouts, exhaustive AudioSpecificConfig product, whole-file accessor stage (object type x frequency index x channel configuration x sample-entry rate)",
+         "The library's bytes must equal the reference encoder's for the same fields (reserved bits masked, ilst order ignored) and the library must decode every reference layout to the same fields; the AudioSpecificConfig product (93 object types x 16 frequency indices x 16 channel configurations) is enumerated, and the reader's audio accessors must report the configured values whatever the sample entry's own rate field says. One open known finding (explicit-frequency channel configuration) is tolerated by signature.",
          "conformance judged against the harness author's reading of the specifications", "DESIGN.md 4/C05"),
- "C06": (X, "structure-aware fuzzing: exhaustive single / strided pairwise boundary-value substitution into every field of reference-encoded and canned files, box-tree surgery, prefixes and proptest havoc, also consistent inflation of counts with ancestor sizes, a mutated box twice in a row, amplification (over-reading trak/traf x 200-400), 100 000-entry tables, valid structures with unusual content, and the stand-alone box decoders with their renderings, through an API driver with a panic/abort oracle in two build profiles",
+ "C06": (X, "structure-aware fuzzing: exhaustive single / strided pairwise boundary-value substitution into every field of reference-encoded and canned files, box-tree surgery, prefixes and proptest havoc, also consistent inflation of counts with ancestor sizes, a mutated box twice in a row, amplification (over-reading trak/traf x 200-400), 60 000 boxes nested in one another inside every container, stz2 in place of stsz, 100 000-entry tables, valid structures with unusual content, and the stand-alone box decoders with their renderings, through an API driver with a panic/abort oracle in two build profiles",
          "Every generated input is opened (as file, as fragment against two init segments, with segments against it) and every read-side call is made under catch_unwind in a wrapping and an overflow-checked build; process death is attributed to the case and re-confirmed in a fresh process. Search, not proof: absence is shown only for the explored inputs.",
          "trusts the reference encoder for seed files and the field map; mutated inputs <= ~6 KiB; scale stages up to ~1 MiB", "DESIGN.md 4/C06"),
  "C07": (X, "structure-aware fuzzing focused on size/count/offset fields with a deterministic resource oracle (operation-counting stream with hard budget, thread CPU time absolute and relative to an ordered-table baseline of the same length, supervisor stall detection)",
